@@ -91,6 +91,8 @@ type Features struct {
 	// NoBackslashQuote: no string literal spelled with a backslash-escaped quote (C17: the linter's text
 	// rules do not know that escape - a listed finding)
 	NoBackslashQuote bool
+	// ReturningAlias: RETURNING expr AS name
+	ReturningAlias bool
 	// Flat: no nested query anywhere and no statement-starting keyword after the
 	// first token (SELECT/INSERT ... VALUES/DELETE only): the sub-grammar C12 quantifies over
 	Flat bool
@@ -109,6 +111,7 @@ func FullFeatures() Features {
 	f.QuotedOddNames, f.QuotedDotName, f.QuotedDigitsName = true, true, true
 	f.Corners = true
 	f.OrderByAlias, f.KeywordValues = true, true
+	f.ReturningAlias = true
 	return f
 }
 
